@@ -5,6 +5,7 @@ R2 running-minimum shape of the kernel; R3 caller buffer protocol; R4 per-grain 
 Not decided: myhistogram == label histogram for all label sets; behaviour at exact ties.
 """
 import ast
+import re
 
 from engine import cfront, crules, definit, omp, pyfacts
 from engine.cfront import estr
@@ -30,6 +31,8 @@ def run(R):
         r3(R)
     if R.want("C07.R4"):
         r4(R)
+    if R.want("C07.R5"):
+        r5(R)
 
 
 # --------------------------------------------------------------------------------------------------
@@ -486,3 +489,57 @@ def r4(R):
                 "gv buffer %s -> %s" % (src(gv_out) if gv_out is not None else None, src(gv_in)),
                 "score_and_assign must read the g-vector array compute_gv has just written for this grain")
     R.floor("C07.R4", 4)
+
+
+# --------------------------------------------------------------------------------------------------
+def r5(R):
+    R.rule("C07.R5", "per-grain peak counts are taken from the final label array: the value score_and_assign returns (peaks the grain "
+                     "held at the time of that call, before later grains competed) is never kept as a count; indexer.fight_over_peaks "
+                     "computes self.gas from the labels after the loop over all grains")
+    nsite = 0
+    for rel in pyfacts.library_files(R.root, R.tier):
+        mm = pyfacts.module(R, rel)
+        if "score_and_assign" not in mm.text:
+            continue
+        for nme, c in pyfacts.kernel_calls(mm.tree, names=("score_and_assign",)):
+            nsite += 1
+            fn = mm.enclosing_function(c)
+            q = mm.qualname(fn) if fn is not None else "<module>"
+            st = pyfacts.containing_stmt(c)
+            if isinstance(st, ast.Expr):
+                R.inst("C07.R5", "%s:%s result of score_and_assign not kept" % (rel, q))
+                continue
+            kept = None
+            if isinstance(st, ast.Assign) and st.value is c and len(st.targets) == 1 and isinstance(st.targets[0], ast.Name):
+                nm = st.targets[0].id
+                uses = []
+                for x in ast.walk(fn if fn is not None else mm.tree):
+                    if isinstance(x, ast.Name) and x.id == nm and isinstance(x.ctx, ast.Load):
+                        par = getattr(x, "_parent", None)
+                        while par is not None and not isinstance(par, (ast.Call, ast.stmt)):
+                            par = getattr(par, "_parent", None)
+                        if isinstance(par, ast.Call) and (src(par.func) in ("print",) or (pyfacts.dotted(par.func) or "").split(".")[0] in ("logging", "logger", "log")):
+                            continue
+                        uses.append(x)
+                kept = ("used at line(s) %s" % sorted(set(u.lineno for u in uses))) if uses else None
+            else:
+                kept = "stored by '%s'" % src(st)[:60]
+            R.check(kept is None, "C07.R5", rel, c.lineno, q, "value returned by score_and_assign is not kept (%s)" % (kept or "unused / printed only"),
+                    "the number of peaks a grain held when it was scored is kept as its count: peaks taken over by later, better "
+                    "fitting grains are never subtracted, so the counts no longer equal the histogram of the final labels and "
+                    "depend on the order of the grains")
+    if nsite < 2:
+        R.fail("C07.R5 found %d library calls of score_and_assign, expected at least 2" % nsite)
+    m = pyfacts.module(R, "ImageD11/indexing.py")
+    fn = m.nfunc("indexer.fight_over_peaks")
+    loops = [l for l in ast.walk(fn) if isinstance(l, (ast.For, ast.While)) and any(n_ == "score_and_assign" for n_, c_ in pyfacts.kernel_calls(l))]
+    gas = [a for a in ast.walk(fn) if isinstance(a, ast.Assign) and any(src(t) == "self.gas" for t in a.targets)]
+    R.shape(len(loops) == 1 and len(gas) >= 1, "C07.R5", "ImageD11/indexing.py", "indexer.fight_over_peaks", "the grain loop and the assignment of self.gas")
+    kc = [c_ for n_, c_ in pyfacts.kernel_calls(loops[0]) if n_ == "score_and_assign"][0]
+    lab = src(kc.args[4]) if len(kc.args) >= 5 else None
+    for a in gas:
+        t = pyfacts.resolved_src(fn, a.value, 4, keep=("self", lab or "labels"))
+        ok = lab is not None and lab in t and a.lineno > (getattr(loops[0], "end_lineno", loops[0].lineno)) and \
+            re.search(r"(histogram|bincount|myhistogram|searchsorted|unique|count_nonzero|==)", t) is not None
+        R.check(ok, "C07.R5", "ImageD11/indexing.py", a.lineno, "indexer.fight_over_peaks", "self.gas = histogram of %s after all grains competed" % lab,
+                "the per-grain counts are not computed from the final label array: %s" % t[:80])
